@@ -239,6 +239,26 @@ func judgeList(c Case, res []int, mn, mx int, shortcut bool) []verdict {
 			}
 		}
 	}
+	// ... and among the user's peers too: when they do not all fit, "peers are
+	// chosen from this set in allocation order" (Cluster.Pin), i.e. in the
+	// order the strategy ranks them
+prank:
+	for _, a := range added {
+		if !f.A[a] || !has(c.Prio, a) {
+			continue
+		}
+		va, oka := numericValue(c.St[a])
+		for _, b := range prioAvail {
+			if seen[b] {
+				continue
+			}
+			vb, okb := numericValue(c.St[b])
+			if oka && okb && ((c.Alloc == "ascend" && vb < va) || (c.Alloc == "descend" && vb > va)) {
+				out = append(out, verdict{"ranking-not-followed-among-priority-peers", fmt.Sprintf("%s allocator: result %v adds priority peer %d (value %d) while priority peer %d (value %d) was left out", c.Alloc, res, a, va, b, vb)})
+				break prank
+			}
+		}
+	}
 rank:
 	for _, a := range addedNonPrio {
 		va, _ := numericValue(c.St[a])
